@@ -20,7 +20,7 @@ ASSUMPTIONS = [
     'SBML sub-domain: generated linear PKPD models (dosed, fixed parameters) through the reference integrator vf/simshim.py; '
     'oracle = complex step through the closed-form solution (matrix exponential)']
 REQUIRED = ['indiv', 'hier', 'sbml', 'dosed', 'sbml_fixed', 'posterior', 'nonfinite', 'cov', 'red', 'noncentered', 'kind:pooled',
-            'kind:hetero', 'unmeasured_output_first', 'negative_outputs', 'sbml_all_mech_fixed', 'sbml_nothing_measured']
+            'kind:hetero', 'unmeasured_output_first', 'negative_outputs', 'sbml_all_mech_fixed', 'sbml_nothing_measured', 'trunc_value_on_boundary']
 
 
 @st.composite
